@@ -27,7 +27,8 @@ def make_menu(spec, tier, with_np):
 
         nrecs = numpy_alphabet(spec, "core", 3)
         menu["batches"] = [(nrecs[:2], None), (nrecs, [0.5, 2.0, 1.0][: len(nrecs)]), (nrecs[-2:], [0.5, 0.0]), ([], None),
-                           (nrecs[:2], 2.0), ([], 2.0)]  # scalar weights, on batches as long as earlier ones
+                           (nrecs[:2], 2.0), ([], 2.0),  # scalar weights, on batches as long as earlier ones
+                           (nrecs[:2], [-1.0, 2.0]), (nrecs[:2], [NAN, 0.5]), (nrecs[:2], -1.0)]  # rows / batches that are no-ops
         menu["kinds"].append("fillnp")
     return menu
 
